@@ -194,6 +194,12 @@ pub fn response(
     values: Option<&[SocketAddr]>,
     nodes: &[([u8; 20], SocketAddr)],
 ) -> Vec<u8> {
+    let raw: Option<Vec<Vec<u8>>> = values.map(|v| v.iter().map(benc::compact_addr).collect());
+    response_raw(tid, id, token, raw.as_deref(), nodes)
+}
+
+/// The same with the entries of `values` given as raw byte strings (other clients' malformed entries).
+pub fn response_raw(tid: &[u8], id: &[u8; 20], token: Option<&[u8]>, values: Option<&[Vec<u8>]>, nodes: &[([u8; 20], SocketAddr)]) -> Vec<u8> {
     let mut r = vec![("id", Val::b(id))];
     let mut n4 = vec![];
     let mut n6 = vec![];
@@ -214,7 +220,7 @@ pub fn response(
         r.push(("token", Val::b(t)));
     }
     if let Some(v) = values {
-        r.push(("values", Val::List(v.iter().map(|a| Val::Bytes(benc::compact_addr(a))).collect())));
+        r.push(("values", Val::List(v.iter().map(|a| Val::Bytes(a.clone())).collect())));
     }
     Val::dict(vec![("t", Val::b(tid)), ("y", Val::s("r")), ("r", Val::dict(r))]).canon().encode()
 }
